@@ -1,10 +1,11 @@
 (* C03 — parse then create reproduces the envelope.
    Statements only.  Round-trip lemmas of the object model, constructor by constructor; the witnesses of the known
    findings (F4a3, F4b) as refutations computed on the model over the REGENERATED tables.  The induction that glues the
-   constructor lemmas together over the whole grammar is NOT proved (see the claim text): the round trip of whole
-   envelopes is decided by the differential check on every run. *)
+   constructor lemmas together over the whole grammar is proved for the DESCRIPTION level (describe_then_rebuild: what parse
+   shows for a stable tree is read back by create as the same tree); the byte level (from_cbor after to_cbor) is not, and the
+   round trip of whole envelopes is decided by the differential check on every run. *)
 Require Import Coq.Strings.String.
-From Verif Require Import Base.Prim Base.Str Cbor.Codec Suit.Py Suit.PyFacts Suit.Ty Suit.Interp Suit.Tables Suit.Roundtrip gen.GenTypes.
+From Verif Require Import Base.Prim Base.Str Cbor.Codec Suit.Py Suit.PyFacts Suit.Ty Suit.Interp Suit.Tables Suit.Roundtrip Suit.Reparse gen.GenTypes.
 Open Scope Z_scope.
 
 Theorem int_roundtrip env jd c f g : normal c -> check_int c = true ->
@@ -49,6 +50,32 @@ Theorem wrong_tag_refused env jd n m name t c f : normal (CTag m c) -> m <> n ->
   from_cbor env jd (S f) (TTag n name t) (ser (CTag m c)) = Raise SUITError.
 Proof. exact (Roundtrip.wrong_tag_refused env jd n m name t c f). Qed.
 Print Assumptions wrong_tag_refused.
+(* DESCRIPTION LEVEL, all node classes but the unnamed text maps (suit-text) and the extended digest / encryption-info forms: for every type table, budget, and
+   every STABLE tree (well-typed; scalars of the right kind; byte strings of real bytes; named tuples whose member names are
+   pairwise different, star-free except for a repeated last member "name*" whose prefix starts no other member name; key-value
+   nodes with pairwise different member names; and at every union node the alternatives tried before the parsed one reject
+   what is shown), reading back what is shown gives the same tree: nothing dropped, duplicated, reordered or re-typed.
+   The trees on which the union premise fails are exactly the known findings F4a3 / F4b (refuted below on the model). *)
+Theorem describe_then_rebuild env hn H u5 fs jl jd sev sp sd f t v o :
+  st env hn H u5 fs jl jd sev sp sd t v -> to_obj env f t v = Ok o -> from_obj env hn H u5 fs jl jd sev sp sd f t o = Ok v.
+Proof. exact (Reparse.describe_then_rebuild env hn H u5 fs jl jd sev sp sd f t v o). Qed.
+Print Assumptions describe_then_rebuild.
+
+(* non-vacuity: a digest tuple (enumerated algorithm name + bytes) of the regenerated table is stable, and is rebuilt *)
+Example digest_tuple_stable hn H u5 fs jl jd sev sp sd :
+  exists fields, lookup (s2b "SuitDigestRaw") types = Some (TTuple fields) /\ tuple_ok fields
+    /\ from_obj types hn H u5 fs jl jd sev sp sd 6 (TRef (s2b "SuitDigestRaw"))
+         (CMap [(CText (s2b "suit-digest-algorithm-id"), CText (s2b "cose-alg-sha-256")); (CText (s2b "suit-digest-bytes"), CText (s2b "0102"))])
+       = Ok (VSeq [VRaw (CText (s2b "cose-alg-sha-256")); VRaw (CBytes [1; 2])]).
+Proof.
+  eexists. split; [vm_compute; reflexivity|]. split.
+  - constructor.
+    + cbn [map fst]. repeat constructor; cbn [In]; intuition discriminate.
+    + vm_compute. reflexivity.
+    + intros k ft Hl _. left. vm_compute in Hl. injection Hl as <- _. vm_compute. reflexivity.
+  - vm_compute. reflexivity.
+Qed.
+
 (* names and integers of every key space round-trip (shared with C08) *)
 Theorem enum_name_id_name env hn H u5 fs jl jd sev sp sd tbl :
   NoDup (map fst tbl) -> NoDup (map snd tbl) -> (forall n i, In (n, i) tbl -> - 2 ^ 64 <= i < 2 ^ 64) ->
